@@ -220,6 +220,19 @@ package regulator
 //@   -- C20: a table that is told to break hands back all of its players
 //@   ensures [C20 C09] old(in(tableID, r.tables)) && !in(tableID, r.tables)
 //@             ==> release == old(r.tables[tableID].PlayerCount) - out && len(newPlayers) == 0 && r.tableCount == old(r.tableCount) - 1
+//@   -- C20 (what keeps the balancing from oscillating): a table receives players only up to the floor of the water
+//@   -- level playerCount / ceil(playerCount / max), releases players only down to it, and is broken only when more
+//@   -- tables exist than are needed
+//@   ensures [C20] old(in(tableID, r.tables)) && in(tableID, r.tables) && len(newPlayers) > 0
+//@             ==> r.tables[tableID].PlayerCount * ((r.playerCount + r.maxPlayersPerTable - 1) / r.maxPlayersPerTable) <= r.playerCount
+//@   ensures [C20] old(in(tableID, r.tables)) && in(tableID, r.tables) && release > 0
+//@             ==> (r.tables[tableID].PlayerCount + 1) * ((r.playerCount + r.maxPlayersPerTable - 1) / r.maxPlayersPerTable) > r.playerCount
+//@   ensures [C20] old(in(tableID, r.tables)) && !in(tableID, r.tables)
+//@             ==> (r.playerCount + r.maxPlayersPerTable - 1) / r.maxPlayersPerTable < old(r.tableCount)
+//@   ensures [C20] release == 0 || len(newPlayers) == 0
+//@   -- the other tables' sheets are untouched
+//@   ensures [C09 C20] forall id string :: id != tableID ==> (in(id, r.tables) <==> old(in(id, r.tables))) && r.tables[id] == old(r.tables[id])
+//@   ensures [C09 C20] forall s *Table :: allocated(s) && s != old(r.tables[tableID]) ==> s.PlayerCount == old(s.PlayerCount)
 //@   ensures [C09] forall k :: 0 <= k && k < len(newPlayers) ==> newPlayers[k] == old(r.waitingQueue[k])
 //@   ensures [C09] len(r.waitingQueue) == old(len(r.waitingQueue)) - len(newPlayers)
 //@   loop 1 invariant 0 <= i && i <= count && picked == i
